@@ -53,6 +53,8 @@ pub fn c06_label_octet_display_roundtrip() {
     assert!(b2 == b);
     // a label separator must not appear unescaped either
     assert!(!(out.len == 1 && text[0] == b'.'));
+    // a label at the start of a line must not look like a control entry ($ORIGIN, $TTL, ...)
+    assert!(text[0] != b'$');
     // the reader must not see the end of the word inside the label
     assert!(sym2.is_word_char());
     assert!(!(out.len == 1 && ends_word(text[0])));
